@@ -138,6 +138,27 @@ def convention_relations(mod):
                 pos = ast.parse('number[-1]' if k == 1 else 'number[-%d:]' % k, mode='eval').body
                 out.append((g, arg, pos, 'NotEq', 'number:convention'))
                 break
+        else:
+            # the check characters lead the number (e.g. the Australian ABN): computed from the rest
+            k = None
+            ok = bool(nums)
+            for v in nums:
+                try:
+                    for kk in (1, 2):
+                        ck = g(v[kk:])
+                        if isinstance(ck, str) and len(ck) == kk and v.startswith(ck):
+                            break
+                    else:
+                        ok = False
+                        break
+                    k = kk if k in (None, kk) else 0
+                except Exception:      # noqa: B902
+                    ok = False
+                    break
+            if ok and k:
+                arg = ast.parse('number[%d:]' % k, mode='eval').body
+                pos = ast.parse('number[0]' if k == 1 else 'number[:%d]' % k, mode='eval').body
+                out.append((g, arg, pos, 'NotEq', 'number:convention'))
     return out
 
 
